@@ -44,6 +44,19 @@ structure File where
   ioErr : Bool := false    -- the emitter's write (or `fs::read_to_string` of the original) fails
   deriving DecidableEq, Repr
 
+/-- what `default_submod_path` gives for a `mod m;` that also carries nested paths -/
+inductive DfltKind where | found | notFound | multiple
+  deriving DecidableEq, Repr
+/-- what `find_mods_outside_of_ast` does with one nested-path candidate after parsing it -/
+inductive AltAct where | fail | use | skip
+  deriving DecidableEq, Repr
+/-- what `find_external_module` does once the candidates are collected: `fail` = `Err`; `none` = `Ok(None)`
+(nothing is inserted, the candidates are dropped too); `file` = the default file is taken (`External`, or
+`MultiExternal` with the candidates); `declaringItem` = the candidates are taken and the default file's *path*
+is registered with the declaring item's module; `candidates` = no default file, the candidates are taken -/
+inductive DfltAct where | fail | none | file | declaringItem | candidates
+  deriving DecidableEq, Repr
+
 mutual
 /-- A file together with the out-of-line module declarations (`mod m;`) in it, in source order. -/
 inductive Tree where
@@ -59,6 +72,16 @@ inductive Mods where
   | notFound (rest : Mods)
   /-- `ModError::MultipleCandidates` (both `m.rs` and `m/mod.rs`) -/
   | multiple (rest : Mods)
+  /-- `#[cfg_attr(pred, path = "alt.rs")] mod m;` (src/modules.rs:395-470): the nested-path candidates that
+  exist and were not parsed before, in attribute order, each with what the resolver did with it; what the
+  default look-up gives (`dflt` is only meaningful for `DfltKind.found`) and what the resolver did then;
+  `ghost` is the file-map entry the path of the default file gets when it is registered with the declaring
+  item's module (the path and bytes of the default file, the text of the *parent*). -/
+  | cfgAttr (alts : Alts) (dk : DfltKind) (act : DfltAct) (dflt : Tree) (ghost : File) (rest : Mods)
+/-- nested-path candidates -/
+inductive Alts where
+  | nil
+  | cons (act : AltAct) (t : Tree) (rest : Alts)
 end
 
 def Tree.file : Tree → File | .node f _ => f
@@ -101,6 +124,22 @@ def mapInsert (f : File) : List File → List File
 
 /-! ### module resolution (`ModResolver::visit_crate`, src/modules.rs:121-148) -/
 
+/-- a candidate made `find_mods_outside_of_ast` return an error -/
+def altsFail : Alts → Bool
+  | .nil => false
+  | .cons act _ rest => act == .fail || altsFail rest
+
+/-- a candidate was taken (`outside_mods_empty` is false) -/
+def altsAnyUse : Alts → Bool
+  | .nil => false
+  | .cons act _ rest => act == .use || altsAnyUse rest
+
+/-- `insert_sub_mod` on the `MultiExternal` list: the candidates that were taken, in order, `or_insert` -/
+def insertAlts : Alts → List File → List File
+  | .nil, acc => acc
+  | .cons .use (.node f _) rest, acc => insertAlts rest (orInsert f acc)
+  | .cons _ _ rest, acc => insertAlts rest acc
+
 mutual
 /-- `visit_sub_mod` for a `mod m;` that resolved to file `t`: parse it (any fault is an `Err`), a file
 with `#![rustfmt::skip]` is dropped together with everything below it (`Ok(None)`), otherwise it is put
@@ -120,6 +159,36 @@ def visitMods : Mods → List File → Option (List File)
   | .skipped rest, acc => visitMods rest acc
   | .notFound _, _ => none
   | .multiple _, _ => none
+  | .cfgAttr alts _ act (.node df dm) ghost rest, acc =>
+    if altsFail alts then none
+    else
+      match act with
+      | .fail => none
+      | .none => visitMods rest acc
+      | .file =>
+        match visitAlts alts (orInsert df (insertAlts alts acc)) with
+        | none => none
+        | some a1 =>
+          match visitMods dm a1 with
+          | none => none
+          | some a2 => visitMods rest a2
+      | .declaringItem =>
+        match visitAlts alts (orInsert ghost (insertAlts alts acc)) with
+        | none => none
+        | some a1 => visitMods rest a1
+      | .candidates =>
+        match visitAlts alts (insertAlts alts acc) with
+        | none => none
+        | some a1 => visitMods rest a1
+/-- `visit_sub_mod_inner` on `MultiExternal`: the `mod` items of every candidate that was taken, in order -/
+def visitAlts : Alts → List File → Option (List File)
+  | .nil, acc => some acc
+  | .cons .use (.node _ m) rest, acc =>
+    match visitMods m acc with
+    | none => none
+    | some a => visitAlts rest a
+  | .cons .fail _ rest, acc => visitAlts rest acc
+  | .cons .skip _ rest, acc => visitAlts rest acc
 end
 
 /-- `visit_crate`: sub-modules first (only if `recursive`), the root inserted last with `insert`. -/
@@ -138,6 +207,19 @@ def faultM : Mods → Bool
   | .skipped rest => faultM rest
   | .notFound _ => true
   | .multiple _ => true
+  | .cfgAttr alts _ act (.node _ dm) _ rest =>
+    altsFail alts ||
+    (match act with
+     | .fail => true
+     | .none => faultM rest
+     | .file => faultA alts || faultM dm || faultM rest
+     | .declaringItem => faultA alts || faultM rest
+     | .candidates => faultA alts || faultM rest)
+def faultA : Alts → Bool
+  | .nil => false
+  | .cons .use (.node _ m) rest => faultM m || faultA rest
+  | .cons .fail _ rest => faultA rest
+  | .cons .skip _ rest => faultA rest
 end
 
 /-- The root cannot be processed: a fault in the root file, or (unless `skip_children`) a fault in a
@@ -155,6 +237,10 @@ def allFilesM : Mods → List File
   | .skipped rest => allFilesM rest
   | .notFound rest => allFilesM rest
   | .multiple rest => allFilesM rest
+  | .cfgAttr alts _ _ dflt ghost rest => allFilesA alts ++ allFilesT dflt ++ ghost :: allFilesM rest
+def allFilesA : Alts → List File
+  | .nil => []
+  | .cons _ t rest => allFilesT t ++ allFilesA rest
 end
 
 /-! ### one file (`FormatContext::format_file`, src/formatting.rs:205-261) -/
